@@ -8,15 +8,21 @@
 #                the properties listed for it in mutants/EXPECT.tsv must report it / stay silent.
 set -u
 cd "$(dirname "$0")"
-export VERIF_EVIDENCE_DIR=/verif/target/mutant_evidence; mkdir -p $VERIF_EVIDENCE_DIR
+export VERIF_DIR="$PWD"
+export VERIF_EVIDENCE_DIR="$PWD/target/mutant_evidence"; mkdir -p "$VERIF_EVIDENCE_DIR"
+# SELFTEST_SCRATCH=1: work on a scratch clone of /repo (built through cargo's `paths` override) so that /repo stays untouched
+REPO=/repo
+if [ "${SELFTEST_SCRATCH:-0}" = 1 ]; then
+  SCR=$(mktemp -d /tmp/selftest_repo.XXXXXX); git clone -q /repo "$SCR/reval"; REPO="$SCR/reval"; export VERIF_REPO_OVERRIDE="$REPO"; trap 'rm -rf "$SCR"' EXIT
+fi
 export CARGO_NET_OFFLINE=true
 MODE="${1:-}"; shift || true
-( cd sim && cargo build --release --offline --workspace ) > target/build.log 2>&1 || { echo "build failed"; tail target/build.log; exit 2; }
+mkdir -p target; ( cd sim && cargo build --release --offline --workspace ) > target/build.log 2>&1 || { echo "build failed"; tail target/build.log; exit 2; }
 case "$MODE" in
 determinism)
   RUNS="${SELFTEST_RUNS:-6400}"
   FAIL=0
-  SD=/verif/target/selftest; rm -rf $SD; mkdir -p $SD
+  SD="$PWD/target/selftest"; rm -rf $SD; mkdir -p $SD
   for P in C05 C09 C11 C12 C15 C18; do
     BIN=./target/release/sim; [ $P = C18 ] && BIN=./target/release/sim18
     for SEED in 1 2 77; do
@@ -44,9 +50,9 @@ mutants)
     [ -n "$PAT" ] && [[ "$NAME" != *$PAT* ]] && continue
     PATCH=mutants/$NAME.diff; [ -f "$PATCH" ] || PATCH=seeded/$NAME/patch.diff
     [ -f "$PATCH" ] || { echo "$NAME: patch missing"; BAD=1; continue; }
-    if [ -n "$(git -C /repo status --porcelain)" ]; then echo "/repo not clean"; exit 2; fi
-    git -C /repo apply "$PWD/$PATCH" || { echo "$NAME: does not apply"; BAD=1; continue; }
-    T="PASS"; ( cd /repo && cargo test --workspace --no-fail-fast --offline ) > target/mutant_tests.log 2>&1 || T="FAIL"
+    if [ -n "$(git -C $REPO status --porcelain)" ]; then echo "$REPO not clean"; exit 2; fi
+    git -C $REPO apply "$PWD/$PATCH" || { echo "$NAME: does not apply"; BAD=1; continue; }
+    T="PASS"; ( cd $REPO && cargo test --workspace --no-fail-fast --offline ) > target/mutant_tests.log 2>&1 || T="FAIL"
     printf "%-44s %-6s" "$NAME" "$T"
     for P in C05 C09 C11 C12 C15 C18; do
       E=$(echo "$EXPECT" | grep -oE "$P=[a-z]" | cut -d= -f2); E=${E:-s}   # y = must report, s = must stay silent, o = may report
@@ -61,16 +67,16 @@ mutants)
       printf " %-4s" "$MARK"
     done
     echo
-    git -C /repo checkout -- . ; git -C /repo clean -fdq src tests
+    git -C $REPO checkout -- . ; git -C $REPO clean -fdq src tests
   done < mutants/EXPECT.tsv
   [ $BAD = 0 ] && echo "mutants: every expectation met (X = reported, . = silent, 2 = harness error, ! = unexpected)" || { echo "mutants: expectations NOT met"; exit 1; }
   ;;
 miri)
   # the one mutant only Miri's race detector can see: unsafe impl Sync over a Cell touched by every evaluation
-  git -C /repo apply "$PWD/mutants/c18_unsafe_sync_cell_counter.diff" || exit 2
-  ( cd sim/c18_miri && MIRIFLAGS="-Zmiri-many-seeds=0..16 -Zmiri-preemption-rate=0.1" cargo +nightly miri run --offline ) > target/selftest_miri.log 2>&1
+  git -C $REPO apply "$PWD/mutants/c18_unsafe_sync_cell_counter.diff" || exit 2
+  ( cd sim/c18_miri && MIRIFLAGS="-Zmiri-many-seeds=0..16 -Zmiri-preemption-rate=0.1" cargo +nightly miri run --offline ${VERIF_REPO_OVERRIDE:+--config "paths=[\"$VERIF_REPO_OVERRIDE\"]"} ) > target/selftest_miri.log 2>&1
   RC=$?
-  git -C /repo checkout -- .
+  git -C $REPO checkout -- .
   if [ $RC != 0 ] && grep -q "Data race detected" target/selftest_miri.log; then echo "miri: data race reported for c18_unsafe_sync_cell_counter (expected)"; else echo "miri: mutant NOT reported"; exit 1; fi
   ;;
 *) echo "usage: selftest.sh determinism | mutants [name-pattern] | miri"; exit 2;;
